@@ -277,6 +277,10 @@ func main() {
 			emit(J{"op": "reset"}, "reset")
 			classes = map[string]int{}
 			ms := map[int]machine{0: newMachine(kind), 1: newMachine(kind)}
+			// a third replica gets the same entries one per Update call: how Raft groups entries into batches differs from
+			// replica to replica, the state hash must not (Go-side oracle only, nothing emitted for it)
+			single := newMachine(kind)
+			singleDead := false
 			emit(J{"op": "new", "id": 0, "kind": kind}, "ok")
 			emit(J{"op": "new", "id": 1, "kind": kind}, "ok")
 			ref := map[string][]byte{}
@@ -337,6 +341,22 @@ func main() {
 				}
 				if dead {
 					break
+				}
+				if !singleDead {
+					for j, c := range cmds {
+						c := c
+						if guard(func() { single.update(idx+uint64(j), [][]byte{c}) }) {
+							singleDead = true
+							break
+						}
+					}
+					if !singleDead {
+						run.Count("c15:hash_compared_across_batchings")
+						if h0, h1 := ms[0].hash(), single.hash(); h0 != h1 {
+							fail("hash_function_of_updates", "hash-depends-on-batching", fmt.Sprintf("%s: two replicas applied the same %d entries, one in batches as delivered, one entry per Update call: their state hashes differ", kind, idx+uint64(nb)))
+							singleDead = true
+						}
+					}
 				}
 				if prepCtx != nil {
 					since = append(since, batch{idx, cmds, hexes})
@@ -520,6 +540,15 @@ func main() {
 							break
 						}
 						emit(op, "ok")
+						if !singleDead {
+							for j, c := range cmds {
+								c := c
+								if guard(func() { single.update(idx+uint64(j), [][]byte{c}) }) {
+									singleDead = true
+									break
+								}
+							}
+						}
 						idx += uint64(nb)
 						hop := J{"op": "hash", "id": 1}
 						ops = append(ops, hop)
